@@ -381,7 +381,7 @@ func (vc *VC) needStrFuns() {
 	vc.declared["streq"] = true
 	idx := vc.idxSort()
 	z := vc.intLit(0, 64)
-	at := func(s, i string) string { return "(select (str-arr " + s + ") " + vc.add("(str-off "+s+")", i) + ")" }
+	at := func(s, i string) string { return "(select (str-arr " + s + ") " + vc.at("(str-off "+s+")", i) + ")" }
 	vc.emitDecl(fmt.Sprintf("(define-fun streq ((a Str) (b Str)) Bool (and (= (str-len a) (str-len b)) (forall ((i %s)) (=> (and %s %s) (= %s %s)))))",
 		idx, vc.le(z, "i", true), vc.lt("i", "(str-len a)", true), at("a", "i"), at("b", "i")))
 	// strlt: exists k common prefix length
@@ -447,7 +447,7 @@ func (vc *VC) strEq(x, y *Term, rt types.Type) *Term {
 				lit := k[5:]
 				parts := []string{"(= (str-len " + p[0].S + ") " + vc.intLit(int64(len(lit)), 64) + ")"}
 				for i := 0; i < len(lit); i++ {
-					parts = append(parts, "(= (select (str-arr "+p[0].S+") "+vc.add("(str-off "+p[0].S+")", vc.intLit(int64(i), 64))+") "+vc.intLit(int64(lit[i]), 8)+")")
+					parts = append(parts, "(= (select (str-arr "+p[0].S+") "+vc.at("(str-off "+p[0].S+")", vc.intLit(int64(i), 64))+") "+vc.intLit(int64(lit[i]), 8)+")")
 				}
 				return vc.nameB(&Term{and(parts...), SBool, rt})
 			}
@@ -464,7 +464,7 @@ func (vc *VC) strConcat(x, y *Term, rt types.Type) *Term {
 	lx, ly := "(str-len "+x.S+")", "(str-len "+y.S+")"
 	vc.assume("(= (str-off " + r + ") " + z + ")")
 	vc.assume("(= (str-len " + r + ") " + vc.add(lx, ly) + ")")
-	at := func(s, i string) string { return "(select (str-arr " + s + ") " + vc.add("(str-off "+s+")", i) + ")" }
+	at := func(s, i string) string { return "(select (str-arr " + s + ") " + vc.at("(str-off "+s+")", i) + ")" }
 	vc.assume(fmt.Sprintf("(forall ((i %s)) (! (=> (and %s %s) (= (select (str-arr %s) i) (ite %s %s %s))) :pattern ((select (str-arr %s) i))))",
 		idx, vc.le(z, "i", true), vc.lt("i", vc.add(lx, ly), true), r, vc.lt("i", lx, true), at(x.S, "i"), at(y.S, vc.sub("i", lx)), r))
 	return &Term{r, SStr, rt}
@@ -476,7 +476,7 @@ func (vc *VC) strIndex(st *State, s *Term, i string, pos token.Pos) *Term {
 	}
 	vc.boundsCheck(st, i, "(str-len "+s.S+")", pos, "string")
 	bt := types.Typ[types.Uint8]
-	r := &Term{"(select (str-arr " + s.S + ") " + vc.add("(str-off "+s.S+")", i) + ")", vc.intSort(8), bt}
+	r := &Term{"(select (str-arr " + s.S + ") " + vc.at("(str-off "+s.S+")", i) + ")", vc.intSort(8), bt}
 	return vc.nameLoaded(st, r)
 }
 
@@ -550,12 +550,12 @@ func (vc *VC) appendOp(st *State, s, t *Term, rt types.Type, pos token.Pos) *Ter
 	var tat func(i string) string
 	if t.Sort == SStr {
 		tlen = "(str-len " + t.S + ")"
-		tat = func(i string) string { return "(select (str-arr " + t.S + ") " + vc.add("(str-off "+t.S+")", i) + ")" }
+		tat = func(i string) string { return "(select (str-arr " + t.S + ") " + vc.at("(str-off "+t.S+")", i) + ")" }
 	} else {
 		tlen = "(s-len " + t.S + ")"
 		h0 := vc.heapGet(st, hv)
 		tat = func(i string) string {
-			return "(select (select " + h0 + " (s-ref " + t.S + ")) " + vc.add("(s-off "+t.S+")", i) + ")"
+			return "(select (select " + h0 + " (s-ref " + t.S + ")) " + vc.at("(s-off "+t.S+")", i) + ")"
 		}
 	}
 	if v, ok := vc.constOf[tlen]; ok {
@@ -750,4 +750,13 @@ func (vc *VC) makeMap(st *State, t types.Type) *Term {
 	r := vc.newObject(st, types.NewArray(types.Typ[types.Int], 0), false)
 	vc.heapSet(st, hv, "(store "+vc.heapGet(st, hv)+" "+r.S+" ((as const (Array "+ks+" "+opt+")) none_"+opt+"))")
 	return &Term{r.S, SRef, t}
+}
+
+// at(off, i): element position off+i, wrapped in an uninterpreted symbol so
+// that quantifier patterns over element reads contain no arithmetic.
+func (vc *VC) at(off, i string) string {
+	if vc.mode == "bv" {
+		return "(bvadd " + off + " " + i + ")"
+	}
+	return "(at " + off + " " + i + ")"
 }
